@@ -34,6 +34,7 @@ type DirOp struct {
 	PrevExisted bool   `json:"prev_existed,omitempty"`
 	Written     int    `json:"written,omitempty"` // bytes the item writer produced
 	Writes      int    `json:"writes,omitempty"`
+	SnapInfo    []index.VerifSegmentInfo `json:"-"` // snapshot persists: what was handed to the encoder
 }
 
 func fileName(kind string, id uint64) string { return fmt.Sprintf("%012x", id) + kind }
@@ -303,6 +304,9 @@ func (d *RecDir) Persist(kind string, id uint64, w index.WriterTo, closeCh chan 
 	default:
 		op.Inject = f // os-level faults are armed by the os hook, keyed by op index
 		armOSFault(d.t, f)
+	}
+	if snap, ok := w.(*index.Snapshot); ok && kind == index.ItemKindSnapshot {
+		op.SnapInfo = snap.VerifSegmentInfos()
 	}
 	err := d.inner.Persist(kind, id, &recWriterTo{inner: w, t: d.t, op: op, failAt: failAt}, closeCh)
 	disarmOSFault(d.t)
